@@ -1077,3 +1077,183 @@ func ruleR8_6(r *Run) {
 			"a block write handler can return without reporting the block's count delta to the index aggregation", w.fpos(hf), w.renderPath(p)...)
 	}
 }
+
+// ---------------------------------------------------------------------------------------------
+// R8.7–R8.10
+
+func init() {
+	// (R8.7 intentionally not registered: "index read-modify-write under the shard lock" is R11.1; C08
+	// quantifies over sequences of operations, not over schedules, so the concurrency rule stays with C11.)
+	register(ruleDef{ID: "R8.8", Prop: "C08", Tier: "quick", Floor: 2,
+		Title: "the mapping is changed for exactly the supervoxels whose voxels moved: merge and renumber hand the mapping update the supervoxel set of the merged/renumbered index (GetSupervoxels), not a set of body labels",
+		Fn:    ruleR8_8})
+	register(ruleDef{ID: "R8.9", Prop: "C08", Tier: "quick", Floor: 1,
+		Title: "supervoxel split: every block whose counts are rewritten for the split supervoxel is in the list of blocks whose voxels are rewritten",
+		Fn:    ruleR8_9})
+	register(ruleDef{ID: "R8.10", Prop: "C08", Tier: "quick", Floor: 4,
+		Title: "replay agrees with the live mapping update on what is retired: an id is mapped to 0 by the start-up replay only if the live operation of that record type maps the same operand to 0",
+		Fn:    ruleR8_10})
+}
+
+func ruleR8_8(r *Run) {
+	w := r.W
+	for _, e := range []struct{ fn, callee string }{{"MergeLabels", "addMergeToMapping"}, {"RenumberLabels", "addRenumberToMapping"}} {
+		f := w.method(lmPkg, "Data", e.fn)
+		if f == nil {
+			r.violation("labelmap."+e.fn, "not found", "-")
+			continue
+		}
+		found := false
+		for _, c := range calls(f) {
+			if callName(c) != e.callee {
+				continue
+			}
+			found = true
+			a := c.Common().Args
+			set := a[len(a)-1]
+			ok := false
+			for _, rt := range roots(set, f) {
+				if gc, isC := rt.V.(*ssa.Call); isC && callName(gc) == "GetSupervoxels" {
+					ok = true
+				} else {
+					ok = false
+					break
+				}
+			}
+			r.check(ok, "labelmap."+e.fn+":mapping-set-is-supervoxels-of-moved-index", "the set handed to "+e.callee+" is GetSupervoxels() of the merged index",
+				e.fn+" hands the mapping update a set that is not the supervoxel set of the index being merged (e.g. the body labels): supervoxels whose id differs from their body keep mapping to a body whose index was just deleted", w.pos(c.Pos()))
+		}
+		r.check(found, "labelmap."+e.fn+":updates-mapping", e.callee+" called", e.fn+" no longer calls "+e.callee, w.fpos(f))
+	}
+}
+
+func ruleR8_9(r *Run) {
+	w := r.W
+	f := w.method(lmPkg, "Data", "splitSupervoxelIndex")
+	if f == nil {
+		r.violation("labelmap.splitSupervoxelIndex", "not found", "-")
+		return
+	}
+	// the block list: the slice returned; appends to it
+	isListAppend := func(in ssa.Instruction) bool {
+		c, ok := in.(*ssa.Call)
+		if !ok {
+			return false
+		}
+		bi, ok := c.Call.Value.(*ssa.Builtin)
+		if !ok || bi.Name() != "append" {
+			return false
+		}
+		return typeIs(c.Type(), "dvid", "IZYXSlice")
+	}
+	// the count rewrite: delete(svc.Counts, op.Supervoxel)
+	n := 0
+	for _, c := range calls(f) {
+		bi, ok := c.Common().Value.(*ssa.Builtin)
+		if !ok || bi.Name() != "delete" {
+			continue
+		}
+		n++
+		// every path from the delete to the next iteration / return passes an append to the block list,
+		// unless one was already made on the way to the delete
+		pre := findPath(f, nil, isListAppend, func(in ssa.Instruction) bool { return in == ssa.Instruction(c) }, nil)
+		var post []ssa.Instruction
+		if pre != nil {
+			post = findPath(f, c, isListAppend, func(in ssa.Instruction) bool {
+				if _, isNext := in.(*ssa.Next); isNext {
+					return true
+				}
+				return successExit(in)
+			}, nil)
+		}
+		r.check(pre == nil || post == nil, "labelmap.splitSupervoxelIndex:rewritten-count-block-is-listed", "a block whose counts are rewritten is always added to the list of blocks whose voxels get rewritten",
+			"the index of a block is rewritten for the split supervoxel (old id removed, remainder id added) while the block is left out of the list of blocks whose stored voxels are rewritten: its voxels keep the retired id, read as 0 through the mapping and drop out of the body, while the index still counts them", w.pos(c.Pos()), w.renderPath(post)...)
+	}
+	r.check(n >= 1, "labelmap.splitSupervoxelIndex:count-rewrites", fmt.Sprintf("%d count rewrites", n), "count rewrite not found", w.fpos(f))
+}
+
+func ruleR8_10(r *Run) {
+	w := r.W
+	// live side: operands mapped to 0 by the add*ToMapping functions (field or parameter names, lower-cased)
+	live := map[string]bool{}
+	for _, name := range []string{"addMergeToMapping", "addRenumberToMapping", "addSplitToMapping", "addCleaveToMapping", "addSupervoxelSplitToMapping"} {
+		f := w.fn(lmPkg, name)
+		if f == nil {
+			r.violation("labelmap."+name, "not found", "-")
+			continue
+		}
+		for _, c := range calls(f) {
+			if callName(c) != "setMapping" {
+				continue
+			}
+			a := c.Common().Args
+			if k, ok := constInt(a[len(a)-1]); !ok || k != 0 {
+				continue
+			}
+			live[operandName(a[len(a)-2], f)] = true
+		}
+	}
+	lv := w.method(lmPkg, "VCache", "loadVersionMapping")
+	if lv == nil {
+		r.violation("labelmap.loadVersionMapping", "not found", "-")
+		return
+	}
+	n := 0
+	for _, c := range calls(lv) {
+		if callName(c) != "setMapping" {
+			continue
+		}
+		a := c.Common().Args
+		if k, ok := constInt(a[len(a)-1]); !ok || k != 0 {
+			continue
+		}
+		n++
+		nm := operandName(a[len(a)-2], lv)
+		r.check(live[nm], fmt.Sprintf("labelmap.loadVersionMapping:retires:%s", nm), "the live operation retires the same operand",
+			fmt.Sprintf("the start-up replay maps %q to 0 although no live mapping update retires that operand (live: %v): after a restart voxels of a supervoxel that is still in use read as background", nm, keysOf(live)), w.pos(c.Pos()))
+	}
+	r.check(n >= 3, "labelmap.loadVersionMapping:retirements", fmt.Sprintf("%d retirements in the replay, live operands %v", n, keysOf(live)), "replay retirements not found", w.fpos(lv))
+}
+
+func keysOf(m map[string]bool) []string {
+	var out []string
+	for k := range m {
+		out = append(out, k)
+	}
+	sort.Strings(out)
+	return out
+}
+
+// operandName: a lower-cased name for what a value is: a field (…​.Name), a parameter, or the key
+// variable of a range over a field ("key(field)").
+func operandName(v ssa.Value, f *ssa.Function) string {
+	v = stripConv(v)
+	switch x := v.(type) {
+	case *ssa.Parameter:
+		return strings.ToLower(x.Name())
+	case *ssa.UnOp:
+		if fa, ok := x.X.(*ssa.FieldAddr); ok {
+			nm, _, _ := fieldName(fa)
+			return strings.ToLower(nm)
+		}
+		if al, ok := x.X.(*ssa.Alloc); ok {
+			return strings.ToLower(al.Comment)
+		}
+	case *ssa.Field:
+		if st := derefStruct(x.X.Type()); st != nil {
+			return strings.ToLower(st.Field(x.Field).Name())
+		}
+	case *ssa.Extract:
+		if nx, ok := x.Tuple.(*ssa.Next); ok && x.Index == 1 {
+			if _, ok := nx.Iter.(*ssa.Range); ok {
+				return "key"
+			}
+		}
+	case *ssa.Call:
+		// getter on a proto message: op.GetX()
+		if strings.HasPrefix(callName(x), "Get") {
+			return strings.ToLower(strings.TrimPrefix(callName(x), "Get"))
+		}
+	}
+	return "?" + v.Name()
+}
